@@ -885,6 +885,12 @@ def preconditioner_range_rules(chk, S):
     except (AnalysisError, OverflowError, ZeroDivisionError) as e:
         r9.unknown("preconditioner_taylor range", f"{e}", where)
         return
+    # the exponents are floating-point numbers: with an integer exponent array, a step that happens to be integer-typed (h = 2, the difference of an integer
+    # grid) makes dt ** -k an *integer* power with a negative exponent, which is 0 or wrapped garbage, silently
+    ar = [t for o in out for t in T.subterms(o) if t.op == "np.arange"]
+    inexact = bool(ar) and all(any(isinstance(x, float) for x in list(t.args) + list(t.kwargs.values())) or "float" in str(t.kwargs.get("dtype", "")) for t in ar)
+    r9.require(inexact if ar else None, "Taylor preconditioner exponents are floating-point numbers", "arange(q, -1.0, step=-1.0): inexact exponents, so dt ** -k is a floating power for every step type",
+               f"exponents {[T.show(t, 3) for t in ar]} are integers: for an integer-typed step the inverse preconditioner dt ** -k is computed in integer arithmetic (0 or garbage for |dt| > 1)", where)
     biggest = max(hi for iv in ivs for _lo, hi in iv)
     smallest = min(lo for iv in ivs for lo, _hi in iv)
     # the entry where the precision is first exceeded, for the message
